@@ -100,6 +100,14 @@ def impl_sim(job):
             s2i = m2.get_species2index()
             r["simulator"] = {"time": [float(x) for x in res.py_get_timepoints()], "shape": list(arr.shape),
                               "cols": {s: [float(x) for x in arr[:, s2i[s]]] for s in species}}
+            # the SAME interface object once more, through the entry point (which prepares it again) and through the
+            # simulator: an interface carries nothing over from one deterministic simulation to the next
+            res2 = py_simulate_model(tp, Interface=itf, stochastic=False, return_dataframe=False)
+            res3 = DeterministicSimulator().py_simulate(itf, tp)
+            for tag, rr in (("interface-again", res2), ("simulator-again", res3)):
+                arr2 = np.array(rr.py_get_result(), dtype=float)
+                r[tag] = {"time": [float(x) for x in rr.py_get_timepoints()], "shape": list(arr2.shape),
+                          "cols": {s: [float(x) for x in arr2[:, s2i[s]]] for s in species}}
         except Exception as e:  # noqa
             import traceback
             r["exc"] = "%s: %s" % (type(e).__name__, str(e)[:200])
@@ -130,7 +138,7 @@ def judge(rec, got):
         return [("exception:%s" % got["exc"].split(":")[0], "deterministic simulation raised %s" % got["exc"])], stats
     exp = expected(rec)
     times = [f(t) for t in rec["times"]]
-    for path in ("model", "simulator"):
+    for path in ("model", "simulator", "interface-again", "simulator-again"):
         g = got[path]
         if len(g["time"]) != len(times) or any(abs(a - b) > 1e-12 for a, b in zip(g["time"], times)):
             bad.append(("time-axis:%s" % path, "time axis %s instead of %s" % (g["time"], times)))
